@@ -8,6 +8,8 @@ from ..srcmodel import unparse, norm, walk_no_nested, calls_in, fold_const
 from .common import is_method_call, get_kw, node_obj, fde_guard, F3, parent_chain
 from .tagtable import constructors
 
+from .common import Guard  # noqa: E402
+
 PROP = 'C18'
 DECIDED = [
     'R1: the writer\'s tag vocabulary is contained in the reader\'s: every base tag the dumper can emit (each node class\'s ayns.tag value / prefix, the tags inferred from flags, !null, !metadata) has a registered constructor or multi-constructor prefix.',
@@ -244,11 +246,13 @@ def r5(repo, run):
 
 
 def check(repo, run, tier):
-    r1(repo, run)
-    r2(repo, run)
-    r3(repo, run)
-    r4(repo, run)
-    r5(repo, run)
+    g = Guard()
+    g(r1, repo, run)
+    g(r2, repo, run)
+    g(r3, repo, run)
+    g(r4, repo, run)
+    g(r5, repo, run)
+    g.done()
 
 
 def mutants(repo):
